@@ -254,6 +254,22 @@ type dynHolder struct {
 	Z string      `nbt:"z"`
 }
 
+type snbtFieldHolder struct {
+	A int32                  `nbt:"a"`
+	C nbt.StringifiedMessage `nbt:"c"`
+	Z string                 `nbt:"z"`
+}
+
+func snbtTextOf(dst any) string {
+	switch v := dst.(type) {
+	case *nbt.StringifiedMessage:
+		return string(*v)
+	case *snbtFieldHolder:
+		return string(v.C)
+	}
+	return ""
+}
+
 func c02CheckCarrier(c C02Carrier) *pbt.Violation {
 	if c.Dup && c.Pos != "map" { // (the map position is compared as a tree, which repeated names would blur)
 		c.Tree = dupNames(c.Tree)
@@ -290,6 +306,10 @@ func c02CheckCarrier(c C02Carrier) *pbt.Violation {
 		dst = new(map[string]*dynbt.Value)
 	case "dyn/list":
 		dst = new([]*dynbt.Value)
+	case "snbt/root":
+		dst = new(nbt.StringifiedMessage)
+	case "snbt/field":
+		dst = new(snbtFieldHolder)
 	}
 	var name string
 	var err error
@@ -319,6 +339,16 @@ func c02CheckCarrier(c C02Carrier) *pbt.Violation {
 	if err != nil {
 		return pbt.V("c02.carrier.encode:"+c.Carrier+":"+c.Pos, "carriers re-encode", "encode of %T: %v", dst, err)
 	}
+	if c.Carrier == "snbt" {
+		got, _, n, derr := rn.Decode(out.Bytes(), c.Network)
+		if derr != nil || n != out.Len() {
+			return pbt.V("c02.carrier.snbt.malformed", "decoding the encoding of v yields a value equal to v (StringifiedMessage)", "re-encoded text carrier is malformed: %v (text %q)", derr, clipS(snbtTextOf(dst)))
+		}
+		if d := rn.Diff(root, got, rn.EqOpts{IgnoreEmptyListElem: true}); d != "" {
+			return pbt.V("c02.carrier.snbt.value", "decoding the encoding of v yields a value equal to v (StringifiedMessage)", "%s\n text %q\n got  %s\n want %s", d, clipS(snbtTextOf(dst)), got, root)
+		}
+		return nil
+	}
 	if c.Pos == "map" {
 		// map iteration order is unspecified: compare as trees, but the carrier payloads exactly
 		got, _, n, derr := rn.Decode(out.Bytes(), c.Network)
@@ -346,13 +376,19 @@ var c02Car = pbt.Register(pbt.Prop[C02Carrier]{
 	Name: "C02Carrier",
 	Gen: func(t *rapid.T) C02Carrier {
 		c := C02Carrier{Tree: gen.Tree(t, gen.TreeOpts{MaxDepth: pbt.Pick(4, 5), MaxNodes: pbt.Pick(48, 200), NoBigStr: rapid.IntRange(0, 9).Draw(t, "big") > 0})}
-		c.Carrier = rapid.SampledFrom([]string{"raw", "dyn"}).Draw(t, "carrier")
+		c.Carrier = rapid.SampledFrom([]string{"raw", "dyn", "raw", "dyn", "snbt"}).Draw(t, "carrier")
 		c.Pos = rapid.SampledFrom([]string{"root", "field", "map", "list"}).Draw(t, "pos")
+		if c.Carrier == "snbt" {
+			// the text carrier: a value, not bytes, is what it keeps (C04 owns the grammar; here it is one more member of
+			// the type universe that has to come back equal). Finite floats only: the text has no spelling for NaN payloads.
+			c.Tree = gen.Tree(t, gen.TreeOpts{MaxDepth: 3, MaxNodes: 24, NoBigStr: true, FiniteOnly: true})
+			c.Pos = rapid.SampledFrom([]string{"root", "field"}).Draw(t, "snbtpos")
+		}
 		c.Network = rapid.Bool().Draw(t, "network")
 		if !c.Network {
 			c.Name = gen.Str(t, gen.TreeOpts{NoBigStr: true}, "rootname")
 		}
-		c.Dup = rapid.IntRange(0, 3).Draw(t, "dupnames") == 2
+		c.Dup = rapid.IntRange(0, 3).Draw(t, "dupnames") == 2 && c.Carrier != "snbt"
 		return c
 	},
 	Check: c02CheckCarrier,
